@@ -100,9 +100,35 @@ def run_dag(case):
     hits = {}
     calls = 0
 
+    probe = {'classes': (), 'other': (), 'sink': []}
+
+    @desper.event_handler('on_remove')
     class Root:
+        """Every component is a handler whose on_remove asks the world by
+        every type of the hierarchy: the answer about the *other* entity
+        is determined even while this one is being taken apart."""
+
         def __repr__(self):
             return f'<{type(self).__name__}>'
+
+        def on_remove(self, entity, world):
+            for q in probe['classes']:
+                try:
+                    got = world.get(q)
+                except Exception as exc:
+                    probe['sink'].append(
+                        f'get(K{q.idx}) from {self!r}.on_remove({entity}) '
+                        f'raised {exc!r}')
+                    continue
+                seen = sorted(id(o) for e, o in got if e != entity)
+                want = sorted(id(o) for o in probe['other']
+                              if isinstance(o, q))
+                if seen != want and entity != 2:
+                    probe['sink'].append(
+                        f'get(K{q.idx}) from {self!r}.on_remove({entity}) '
+                        f'lists {[(e, o) for e, o in got if e != entity]} '
+                        f'for the other entity, which owns '
+                        f'{list(probe["other"])}')
 
     classes = build(spec, Root, warm_components)
     if classes is None:
@@ -135,7 +161,18 @@ def run_dag(case):
                 w.create_entity(*objs, entity_id=1)
             other = [classes[0](), classes[-1]()] if n > 1 else [classes[0]()]
             w.create_entity(*other, entity_id=2)
+            probe['classes'], probe['other'] = classes, other
+            del probe['sink'][:]
             return w, objs, other
+
+        def callbacks_ok(what):
+            if probe['sink']:
+                raise Violation(
+                    'queries_from_on_remove',
+                    f'classes {spec}, entity 1 owns '
+                    f'{[type(o).__name__ for o in objs]}, {what}: '
+                    f'{probe["sink"][0]}', raised='raised' in probe['sink'][0],
+                    **feats)
 
         w, objs, other = fresh()
         for q in classes:
@@ -196,6 +233,24 @@ def run_dag(case):
                 f'{[type(o).__name__ for o in objs]}: has_component(ABC) = '
                 f'{has}, get(ABC) lists {listed}, remove_component(ABC) '
                 f'returned {removed!r}', virtual=True, **feats)
+        # entity 1 is deleted (at once, at the next frame, by clear()): the
+        # on_remove callbacks of its components query the world meanwhile
+        if objs:
+            hits['queries_from_on_remove'] = 1
+        for how in ('now', 'deferred', 'clear'):
+            w, objs, other = fresh()
+            if how == 'now' and objs:
+                w.delete_entity(1, immediate=True)
+            elif how == 'deferred' and objs:
+                w.delete_entity(1)
+                w.process(0.5)
+            elif how == 'clear':
+                probe['other'] = ()     # everything goes
+                w.clear()
+                continue
+            callbacks_ok(f'deleted ({how})')
+            calls += 1
+        w, objs, other = fresh()
         # replace each component of entity 1 by a fresh one of the same
         # type (add_component and create_entity), then ask again
         for how in ('add', 'create'):
@@ -229,6 +284,7 @@ def run_dag(case):
             w, objs, other = fresh()
             removed = w.remove_component(1, q)
             calls += 1
+            callbacks_ok(f'remove_component(K{q.idx})')
             if not _exact_or_match(removed, objs, q, None):
                 raise Violation('remove_component_result',
                                 f'classes {spec}, entity owns '
@@ -319,7 +375,8 @@ def run(tier, rep):
         'later subclasses exist (stale memoisation of the subclass walk)',
     ]
     rep.require_hits(multiple_inheritance=1, diamond=1, mro_rejected=1,
-                     replacement=1)
+                     replacement=1, virtual_base_queried=1,
+                     queries_from_on_remove=1)
     kernel.enumerate_cases(run_dag, cases(tier), rep, 'class-dags', chunk=8,
                            params=dict(all_base_orders_up_to=4 if tier == 'quick' else 5,
                                        canonical_base_order_up_to=5 if tier == 'quick' else 6))
